@@ -82,6 +82,14 @@ def plan(tier, seed):
         for i in range(0, len(names), chunk):
             cases.append({'kind': 'sweep', 'state': state, 'names': names[i:i + chunk], 'per': per,
                           'seed': seed * 1000003 + i})
+    # commands that start or stop a connection procedure, swept again while an LE connection
+    # creation is already pending (legacy and extended command sets)
+    conn_names = [n for n in names if any(k in n for k in ('Create_Connection', 'Connection_Cancel', 'Accept_Connection',
+                                                           'Reject_Connection', 'Disconnect', 'Create_CIS', 'Advertising_Enable'))]
+    for state in ('le-connecting', 'le-connecting-ext'):
+        for i in range(0, len(conn_names), chunk):
+            cases.append({'kind': 'sweep', 'state': state, 'names': conn_names[i:i + chunk], 'per': max(per, 6),
+                          'seed': seed * 1000003 + 7000 + i})
     for state in ('fresh', 'connected'):
         cases.append({'kind': 'sweep-unknown', 'state': state, 'seed': seed * 1000003, 'per': per})
     for i in range(200 if tier == 'quick' else 1200):
@@ -158,6 +166,23 @@ async def make_world(seed, state):
     rg = vrig.Rig(2, seed=seed, max_delay=0, classic=True)
     await rg.power_on()
     handles = {}
+    if state.startswith('le-connecting'):
+        from bumble import hci
+        if state.endswith('ext'):
+            rg.controllers[0].le_features = rg.controllers[0].le_features | hci.LeFeatureMask.LE_EXTENDED_ADVERTISING
+        absent = hci.Address('C6:C6:C6:C6:C6:C6', hci.Address.RANDOM_DEVICE_ADDRESS)
+        if state.endswith('ext'):
+            cmd = hci.HCI_LE_Extended_Create_Connection_Command(
+                initiator_filter_policy=0, own_address_type=1, peer_address_type=1, peer_address=absent, initiating_phys=1,
+                scan_intervals=[96], scan_windows=[96], connection_interval_mins=[12], connection_interval_maxs=[24],
+                max_latencies=[0], supervision_timeouts=[72], min_ce_lengths=[0], max_ce_lengths=[0])
+        else:
+            cmd = hci.HCI_LE_Create_Connection_Command(
+                le_scan_interval=96, le_scan_window=96, initiator_filter_policy=0, peer_address_type=1, peer_address=absent,
+                own_address_type=1, connection_interval_min=12, connection_interval_max=24, max_latency=0,
+                supervision_timeout=72, min_ce_length=0, max_ce_length=0)
+        rg.controllers[0].on_packet(bytes(cmd))
+        await rg.quiesce()
     if state == 'connected':
         cl, pl = await rg.connect_le(0, 1)
         cc, pc = await rg.connect_classic(0, 1)
@@ -351,7 +376,15 @@ async def host_case(case, r: R):
             if wr.random() < 0.3:
                 await asyncio.sleep(0)
 
-    await asyncio.gather(*[worker(w) for w in range(ntasks)])
+    tasks = [asyncio.ensure_future(worker(w)) for w in range(ntasks)]
+    # (callers are never cancelled while their command is outstanding: the host then releases its
+    # command slot before the controller answered, which breaks the one-outstanding rule, but a caller
+    # that gives up is outside this property's quantifier - see DESIGN.md section 5)
+    await asyncio.gather(*tasks, return_exceptions=True)
+    await rg.quiesce()
+    # after the dust settled, fresh concurrent callers must still be served one at a time
+    tasks = [asyncio.ensure_future(worker(100 + w)) for w in range(3)]
+    await asyncio.gather(*tasks, return_exceptions=True)
     await rg.quiesce()
     # alternation in the host-boundary log
     outstanding = None
